@@ -1,18 +1,24 @@
 /-
 C01, PBF part: write → read round trip of libosmium's PBF writer and decoder (models in
 Osmium/Model/Pbf.lean, Delta.lean, StringTable.lean; tie to the code: tools/props/c01_pbf.py).
+State of the code: after the fixes 04636d9 (changeset 2^32−1 accepted), 4309424 (exact header bbox),
+9b8b2e0 (byte-size estimates, pbf_error above 32 MiB).
 
-Domain (property text): ids in (−2^63, 2^63), version and uid < 2^31, any uint32 timestamp, changeset
-< 2^32 − 1 (the value 2^32 − 1 is refused by the reader: `pbf_changeset_uint32_max_rejected`), strings
-without NUL.
+Domain (property text): ids in (−2^63, 2^63) — here even the whole int64 range —, version and uid < 2^31,
+any uint32 timestamp / changeset, locations any int32 pair, member types node/way/relation, strings
+without NUL; string tables of at most 2^31 entries (the code throws above 2^25).
 
-What is proved here is the layer the block/file round trip is built from: delta coding, string-table
-resolution, packed arrays, the Info message for every option vector, plus the refutation of the
-size-accounting lemma the 32 MiB limit would need (DESIGN.md F12).  The per-kind (node/way/relation/dense),
-block and file compositions are NOT proved in Lean (see the comment at the end); they are covered by the
-byte-exact and cross correspondence of tools/props/c01_pbf.py only.
+Proved: delta coding, string-table resolution, packed arrays, the Info message for every option vector,
+the FIELD-LIST round trip of plain nodes, ways and relations for every option vector under every string
+table that extends the writer's (`pbf_fields_roundtrip_*`), the header round trip with bounding boxes, the
+block-limit clause (`pbf_block_within_limits`: every emitted data blob has ≤ 8000 entities and ≤ 32 MiB, by
+induction over the object sequence) and the soundness of the size estimate for node/way/relation blocks.
+Not proved (see the comment at the end): dense nodes, the bytes-level composition into blocks and files.
 -/
-import Osmium.Lemmas.Pbf
+import Osmium.Lemmas.PbfObj
+import Osmium.Lemmas.PbfBytes
+import Osmium.Lemmas.PbfHeader
+import Osmium.Lemmas.PbfSize
 
 namespace Osmium.Pbf
 
@@ -76,22 +82,9 @@ theorem packed_roundtrip (vs : List Nat) (h : ∀ v ∈ vs, v < 2 ^ 64) : unpack
 
 /-! ## the Info message, every option vector -/
 
-/-- value domain of the property for the metadata of one object (PBF) -/
-def MetaInDomain (m : Meta) : Prop :=
-  m.version < 2 ^ 31 ∧ m.uid < 2 ^ 31 ∧ m.timestamp < 2 ^ 32 ∧ m.changeset < 2 ^ 32 - 1
-
-instance (m : Meta) : Decidable (MetaInDomain m) := by unfold MetaInDomain; infer_instance
-
-example : MetaInDomain { id := 1, version := 2147483647, uid := 2147483647, timestamp := 4294967295, changeset := 4294967294 } := by
+/-- non-vacuity of the metadata domain: the upper boundaries -/
+example : MetaInDomain { id := 1, version := 2147483647, uid := 2147483647, timestamp := 4294967295, changeset := 4294967295 } := by
   decide
-
-/-- what `decode_info` leaves in the object for what `add_meta` wrote -/
-def projectInfo (o : Opts) (m : Meta) : InfoAcc :=
-  { version := if o.mdVersion then m.version else 0,
-    timestamp := if o.mdTimestamp then m.timestamp else 0,
-    changeset := if o.mdChangeset then m.changeset else 0,
-    uid := if o.mdUid then m.uid else 0,
-    visible := if o.history then m.visible else true }
 
 /-- `decode_info` over the fields `add_meta` emits gives back exactly the selected metadata, for ALL
     option vectors and all in-domain metadata (seconds resolution = default date_granularity) -/
@@ -99,217 +92,156 @@ theorem pbf_info_fields_roundtrip (o : Opts) (p : Params) (m : Meta) (u : Nat)
     (hd : MetaInDomain m) (hp : p.dateFactor = 1000)
     (hu : o.mdUser = true → u < 2 ^ 32 ∧ lookup p.strings (u : Nat) = some m.user) :
     decodeMsg (infoStep p) ({}, []) (encInfo o m u) =
-      some (projectInfo o m, if o.mdUser then m.user else []) := by
-  obtain ⟨hv, hui, hts, hcs⟩ := hd
-  have e1 := int32_field m.version hv
-  have e2 := int32_field m.uid hui
-  have e3 := int64_field m.timestamp hts
-  have e4 := int64_field m.changeset (by simp only [Nat.reducePow] at *; omega)
-  have e5 := convTimestamp_default m.timestamp hts
-  have e6 := changesetOf_nat m.changeset hcs
-  have e7 := versionOf_nat m.version
-  have e8 := uidOf_nat m.uid
-  obtain ⟨d, mv, mt, mc, mu, mus, hist, low⟩ := o
-  simp only at hu
-  cases mus with
-  | false =>
-    cases mv <;> cases mt <;> cases mc <;> cases mu <;> cases hist <;> cases hvis : m.visible <;>
-      simp [encInfo, decodeMsg, infoStep, fVarint, projectInfo, e1, e2, e3, e4, e5, e6, e7, e8, hp, hvis]
-  | true =>
-    obtain ⟨hu1, hu2⟩ := hu rfl
-    have hm : u % 4294967296 = u := Nat.mod_eq_of_lt (by simpa using hu1)
-    cases mv <;> cases mt <;> cases mc <;> cases mu <;> cases hist <;> cases hvis : m.visible <;>
-      simp [encInfo, decodeMsg, infoStep, fVarint, projectInfo, e1, e2, e3, e4, e5, e6, e7, e8, hp, hvis, hm, hu2]
+      some (projectInfo o m, if o.mdUser then m.user else []) :=
+  info_fields_roundtrip o p m u hd hp hu
 
-/-- non-vacuity: an option vector with everything on, metadata at the upper boundaries -/
 example : decodeMsg (infoStep { strings := [[], [0x61]] }) ({}, [])
     (encInfo { history := true } { id := 1, version := 2147483647, uid := 2147483647, timestamp := 4294967295,
-                                   changeset := 4294967294, user := [0x61], visible := false } 1)
-    = some ({ version := 2147483647, timestamp := 4294967295, changeset := 4294967294, uid := 2147483647, visible := false }, [0x61]) := by
+                                   changeset := 4294967295, user := [0x61], visible := false } 1)
+    = some ({ version := 2147483647, timestamp := 4294967295, changeset := 4294967295, uid := 2147483647, visible := false }, [0x61]) := by
   decide
 
-/-- every field `add_meta` puts into Info is a well-formed protobuf field … -/
-theorem encInfo_wf (o : Opts) (m : Meta) (u : Nat) : ∀ f ∈ encInfo o m u, f.WF := by
-  intro f hf
-  have h64 := u64_lt
-  have hu : u % 2 ^ 32 < 2 ^ 64 := by
-    have : u % 2 ^ 32 < 2 ^ 32 := Nat.mod_lt _ (by decide)
-    simp only [Nat.reducePow] at *; omega
-  obtain ⟨d, mv, mt, mc, mu, mus, hist, low⟩ := o
-  simp only [encInfo, List.mem_append] at hf
-  rcases hf with ((((hf | hf) | hf) | hf) | hf) | hf <;>
-    (split at hf <;> simp at hf <;> subst hf <;> simp [Field.WF, fVarint, h64] <;> first | exact hu | (split <;> decide) | skip)
-
-/-- … so the bytes of the Info submessage decode (`decode_info(data, object)`) to the same result -/
+/-- bytes level: `decode_info(data, object)` on the serialized Info submessage -/
 theorem pbf_info_roundtrip (o : Opts) (p : Params) (m : Meta) (u : Nat)
     (hd : MetaInDomain m) (hp : p.dateFactor = 1000)
     (hu : o.mdUser = true → u < 2 ^ 32 ∧ lookup p.strings (u : Nat) = some m.user) :
-    decodeInfo p {} (encodeFields (encInfo o m u)) = some (projectInfo o m, if o.mdUser then m.user else []) := by
-  unfold decodeInfo
-  rw [readFields_encodeFields _ (encInfo_wf o m u)]
-  exact pbf_info_fields_roundtrip o p m u hd hp hu
+    decodeInfo p {} (encodeFields (encInfo o m u)) = some (projectInfo o m, if o.mdUser then m.user else []) :=
+  info_roundtrip o p m u hd hp hu
 
-/-! ## a value of the stated domain that does NOT round-trip -/
-
-/-- changeset id 2^32 − 1 ("any uint32 changeset"): the writer emits it (`add_int64`), `decode_info`
-    throws "object changeset_id must be between 0 and 2^32-1" (`>=` instead of `>` in pbf_decoder.hpp:279;
-    the dense branch :699 has the same test).  Reproduced on the real code by the monitor
-    `pbf-changeset-uint32max` of tools/props/c01_pbf.py. -/
-theorem pbf_changeset_uint32_max_rejected (p : Params) (s : InfoAcc × Bytes) :
-    infoStep p s (fVarint 3 (u64 (4294967295 : Int))) = none := by
-  have : changesetOf (toInt64 (u64 (4294967295 : Int))) = none := by decide
+/-- changeset id 2^32 − 1 ("any uint32 changeset") is accepted since fix 04636d9 (it was rejected before:
+    `>=` instead of `>`; regression probe `pbf-changeset-uint32max` in tools/props/c01_pbf.py) -/
+theorem pbf_changeset_uint32_max_accepted (p : Params) (s : InfoAcc × Bytes) :
+    infoStep p s (fVarint 3 (u64 (4294967295 : Int))) = some ({ s.1 with changeset := 4294967295 }, s.2) := by
+  have := changesetOf_uint32_max
   simp [infoStep, fVarint, this]
 
-/-! ## block limits (DESIGN.md F12) -/
+/-! ## objects: decode (encode opts o) = project opts o, every option vector -/
 
-/-- The clause of the property: every block the writer closes is within the format limits. -/
-def pbf_block_within_limits : Prop :=
-  ∀ (o : Opts) (objs : List Object) (b : Block),
-    (objs.foldl (WState.write o) {}).cur = some b →
-      b.count ≤ maxEntitiesPerBlock ∧ (b.message o).length ≤ PbfFraming.maxUncompressedBlobSize
+/-- plain nodes (`pbf_dense_nodes=false`): `decode_node` on the fields of `PBFOutputFormat::node`, under any
+    string table `T` that extends the block's table at the time the node was added (the final table does:
+    `stringtable_resolve_stable`).  Deleted nodes of a history file come back without location. -/
+theorem pbf_fields_roundtrip_node (o : Opts) (t : Table) (m : Meta) (l : Location) (T : List Bytes)
+    (hd : MetaInDomain m) (hid : IdOk m.id) (hl : LocOk l)
+    (hT : Ext (encNode o t m l).2.strings T) (hsz : (encNode o t m l).2.size ≤ 2 ^ 31) :
+    decodeNode { strings := T } {} (encNode o t m l).1 = project o (.node m l) :=
+  node_fields_roundtrip o t m l T hd hid hl hT hsz
 
-/-- The only thing that could guarantee the size limit is `can_add`, which compares `size()` with 95 % of
-    32 MiB; a proof needs `size()` to bound the serialized block up to the 5 % reserve: -/
-def pbf_size_estimate_sound : Prop :=
-  ∀ (o : Opts) (b : Block),
-    (b.message o).length ≤ b.size + (PbfFraming.maxUncompressedBlobSize - maxUsedBlobSize)
+/-- bytes level for plain nodes: the serialized Node submessage parsed again (`withFields` = protozero over
+    the data_view) — messages below 4 GiB, which the 32 MiB block guard implies -/
+theorem pbf_bytes_roundtrip_node (o : Opts) (t : Table) (m : Meta) (l : Location) (T : List Bytes)
+    (hd : MetaInDomain m) (hid : IdOk m.id) (hl : LocOk l)
+    (hT : Ext (encNode o t m l).2.strings T) (hsz : (encNode o t m l).2.size ≤ 2 ^ 31)
+    (hlen : (encodeFields (encNode o t m l).1).length < 2 ^ 32) :
+    withFields (encodeFields (encNode o t m l).1) (decodeNode { strings := T } {}) = project o (.node m l) :=
+  node_bytes_roundtrip o t m l T hd hid hl hT hsz hlen
 
-theorem encodeFields_length_ge (f : Field) (fs : List Field) (h : f ∈ fs) (hw : f.wt = .lengthDelimited) :
-    f.payload.length ≤ (encodeFields fs).length := by
-  induction fs with
-  | nil => simp at h
-  | cons g gs ih =>
-    simp only [encodeFields, List.flatMap_cons, List.length_append]
-    rcases List.mem_cons.mp h with rfl | h'
-    · have : f.payload.length ≤ (encodeField f).length := by
-        unfold encodeField; simp [hw]; omega
-      omega
-    · have := ih h'
-      simp only [encodeFields] at this
-      omega
+/-- ways, with and without `locations_on_ways` (undefined locations included) -/
+theorem pbf_fields_roundtrip_way (o : Opts) (t : Table) (m : Meta) (ns : List NodeRef) (T : List Bytes)
+    (hd : MetaInDomain m) (hid : IdOk m.id) (hn : WayInDomain ns)
+    (hT : Ext (encWay o t m ns).2.strings T) (hsz : (encWay o t m ns).2.size ≤ 2 ^ 31) :
+    decodeWay { strings := T } {} (encWay o t m ns).1 = project o (.way m ns) :=
+  way_fields_roundtrip o t m ns T hd hid hn hT hsz
 
-theorem stringtable_bytes_le (ss : List Bytes) :
-    (ss.map List.length).sum ≤ (encodeFields (ss.map (fBytes 1))).length := by
-  induction ss with
-  | nil => simp
-  | cons s ss ih =>
-    simp only [List.map_cons, List.sum_cons, encodeFields, List.flatMap_cons, List.length_append] at *
-    have : s.length ≤ (encodeField (fBytes 1 s)).length := by
-      unfold encodeField fBytes; simp; omega
-    omega
+/-- relations (member types node/way/relation, roles through the string table, delta-coded member ids) -/
+theorem pbf_fields_roundtrip_relation (o : Opts) (t : Table) (m : Meta) (ms : List Member) (T : List Bytes)
+    (hd : MetaInDomain m) (hid : IdOk m.id) (hm : RelInDomain ms)
+    (hT : Ext (encRelation o t m ms).2.strings T) (hsz : (encRelation o t m ms).2.size ≤ 2 ^ 31) :
+    decodeRelation { strings := T } {} (encRelation o t m ms).1 = project o (.relation m ms) :=
+  relation_fields_roundtrip o t m ms T hd hid hm hT hsz
 
-theorem message_ge_strings (o : Opts) (b : Block) :
-    (b.table.added.map List.length).sum ≤ (b.message o).length := by
-  have h1 := stringtable_bytes_le b.table.strings
-  have h2 := encodeFields_length_ge (fBytes 1 (encodeFields (b.table.strings.map (fBytes 1))))
-      [fBytes 1 (encodeFields (b.table.strings.map (fBytes 1))), fBytes 2 (b.groupData o)] (by simp) rfl
-  have h3 : (b.table.strings.map List.length).sum = (b.table.added.map List.length).sum := by
-    simp [StringTable.Table.strings]
-  simp only [fBytes] at h2
-  unfold Block.message
-  simp only [fBytes] at *
-  omega
+/-- non-vacuity: a deleted node with two tags in a history file with all metadata, and a way with
+    locations, at the id / coordinate boundaries, evaluated through the models -/
+example : decodeNode { strings := (encNode { dense := false, history := true } {} { id := -9223372036854775808, version := 1, visible := false, user := [0x75], tags := [⟨[0x6b], []⟩, ⟨[0x6b], [0x76]⟩] } ⟨-2147483648, 2147483647⟩).2.strings } {}
+      (encNode { dense := false, history := true } {} { id := -9223372036854775808, version := 1, visible := false, user := [0x75], tags := [⟨[0x6b], []⟩, ⟨[0x6b], [0x76]⟩] } ⟨-2147483648, 2147483647⟩).1
+    = project { dense := false, history := true } (.node { id := -9223372036854775808, version := 1, visible := false, user := [0x75], tags := [⟨[0x6b], []⟩, ⟨[0x6b], [0x76]⟩] } ⟨-2147483648, 2147483647⟩) := by
+  decide +kernel
 
-theorem sum_len_replicate (n L : Nat) (c : UInt8) :
-    ((List.replicate n (List.replicate L c)).map List.length).sum = n * L := by
-  induction n with
-  | zero => simp
-  | succ n ih => simp only [List.replicate_succ, List.map_cons, List.sum_cons, ih, List.length_replicate, Nat.succ_mul]; omega
+example : decodeWay { strings := (encWay { locationsOnWays := true } {} { id := 9223372036854775807, uid := 2147483647 } [⟨1, ⟨1, 2⟩⟩, ⟨-9223372036854775807, Location.undefined⟩]).2.strings } {}
+      (encWay { locationsOnWays := true } {} { id := 9223372036854775807, uid := 2147483647 } [⟨1, ⟨1, 2⟩⟩, ⟨-9223372036854775807, Location.undefined⟩]).1
+    = project { locationsOnWays := true } (.way { id := 9223372036854775807, uid := 2147483647 } [⟨1, ⟨1, 2⟩⟩, ⟨-9223372036854775807, Location.undefined⟩]) := by
+  decide +kernel
 
-/-- `size()` counts string-table ENTRIES (string_table.hpp:264), the serialized block contains their
-    BYTES: a ways/relations block holding 2000 distinct strings of 1024 bytes (all within the domain:
-    ≤ 1024 bytes each, e.g. 400 ways with 5 such tag values; the witness below uses equal strings only to
-    keep the term small — `size()` and the byte count depend on the NUMBER and LENGTH of entries) has
-    `size()` = group data + 2001 but more than 2 MB of string table — beyond the 5 % reserve.  So the
-    accounting lemma is false; with 8000 × 5 such values the block is 40 MB: concrete input
-    `big w 8000 5 1000 D1M31H0L0` of harness/pbf.cpp, on which the real Writer reports success and the real
-    Reader answers "invalid blob size". -/
-theorem not_pbf_size_estimate_sound : ¬ pbf_size_estimate_sound := by
-  intro h
-  have hb := h {} { kind := 3, table := { added := List.replicate 2000 (List.replicate 1024 0x78) } }
-  have h1 := message_ge_strings {} { kind := 3, table := { added := List.replicate 2000 (List.replicate 1024 0x78) } }
-  simp only [sum_len_replicate] at h1
-  have h4 : Block.size { kind := 3, table := { added := List.replicate 2000 (List.replicate 1024 0x78) } } = 2001 := by
-    simp only [Block.size, StringTable.Table.size, List.length_replicate]
-    rfl
-  have h5 : PbfFraming.maxUncompressedBlobSize - maxUsedBlobSize = 1677722 := by decide
-  rw [h4, h5] at hb
-  omega
+/-! ## block limits (DESIGN.md F12, fixed in 9b8b2e0) -/
 
-/-- what the accounting does guarantee: the entity count -/
-theorem canAdd_count (b : Block) (k : Nat) (h : b.canAdd k = true) : b.count < maxEntitiesPerBlock := by
-  unfold Block.canAdd at h
-  split at h
-  · simp at h
-  · split at h
-    · simp at h
-    · omega
+/-- The clause of the property: every data blob of a file the Writer produced without reporting an error
+    stems from a block with at most 8000 entities whose serialized PrimitiveBlock is at most 32 MiB.
+    (`encodeFile … = some _` = no error; the blobs of the file are `s.out`.) -/
+theorem pbf_block_within_limits (o : Opts) (objs : List Object) :
+    ∀ f ∈ ((objs.foldl (WState.write o) {}).store o).out, ∃ b : Block,
+      frameBlob PbfFraming.osmData (b.message o) = some f ∧
+      b.count ≤ maxEntitiesPerBlock ∧ (b.message o).length ≤ PbfFraming.maxUncompressedBlobSize :=
+  (store_inv o _ (foldl_write_inv o objs {} (init_inv o))).2
 
-/-- `_partial`: of `pbf_block_within_limits` only the entity-count half holds for the current code, and
-    it is proved here for one write step from a state that satisfies it (the induction over the whole
-    object sequence is not carried out in Lean — missing: the invariant lemma over `List.foldl`).
-    The size half is refuted above (`not_pbf_size_estimate_sound`, F12). -/
-theorem pbf_block_within_limits_partial (o : Opts) (s : WState) (obj : Object)
-    (hs : ∀ b, s.cur = some b → b.count ≤ maxEntitiesPerBlock) :
-    ∀ b, (s.write o obj).cur = some b → b.count ≤ maxEntitiesPerBlock := by
-  have key : ∀ k b', (s.switchTo o k).2 = b' → b'.count < maxEntitiesPerBlock := by
-    intro k b' hb
-    unfold WState.switchTo at hb
-    split at hb
-    · rename_i b0 _
-      split at hb
-      · rename_i hc
-        simp at hb; subst hb; exact canAdd_count _ _ hc
-      · simp at hb; subst hb; simp [maxEntitiesPerBlock]
-    · simp at hb; subst hb; simp [maxEntitiesPerBlock]
-  intro b hb
-  cases obj with
-  | node m l =>
-    simp only [WState.write] at hb
-    split at hb
-    · simp at hb; subst hb
-      have := key 2 _ rfl
-      simp only; omega
-    · simp at hb; subst hb
-      have := key 1 _ rfl
-      simp only [Block.addItem]; omega
-  | way m ns =>
-    simp only [WState.write] at hb
-    simp at hb; subst hb
-    have := key 3 _ rfl
-    simp only [Block.addItem]; omega
-  | relation m ms =>
-    simp only [WState.write] at hb
-    simp at hb; subst hb
-    have := key 4 _ rfl
-    simp only [Block.addItem]; omega
-  | changeset =>
-    simp only [WState.write] at hb
-    exact hs b hb
+/-- … and the block under construction never holds more than 8000 entities either -/
+theorem pbf_block_count_le (o : Opts) (objs : List Object) (b : Block)
+    (h : (objs.foldl (WState.write o) {}).cur = some b) : b.count ≤ maxEntitiesPerBlock :=
+  (foldl_write_inv o objs {} (init_inv o)).1 b h
+
+/-- `_partial` (node / way / relation blocks; dense blocks missing): since fix 9b8b2e0 `size()` — which
+    `can_add` compares with 95 % of 32 MiB — is an upper bound of the serialized block up to 24 bytes of
+    framing, for strings below 2 MiB.  With the old entry-counting estimate this was false (2000 strings of
+    1024 bytes: `size()` = 2001, > 2 MB serialized — the former theorem `not_pbf_size_estimate_sound`).
+    Missing for dense blocks: the per-array varint length bounds (ids ≤ 10, int32-range deltas ≤ 5 bytes …)
+    against `denseSize`; the model's `denseSize`/`Block.size` is tied to the real `size()` byte-exactly by
+    the `est` correspondence stream instead. -/
+theorem pbf_size_estimate_sound_partial (o : Opts) (b : Block) (hk : (b.kind == 2) = false) (hc : b.Consistent)
+    (hs : ∀ s ∈ b.table.added, s.length < 2 ^ 21) : (b.message o).length ≤ b.size o + 24 :=
+  size_estimate_plain o b hk hc hs
+
+example : (({ kind := 3, table := { added := [[1, 2, 3]] } } : Block).message {}).length ≤
+    ({ kind := 3, table := { added := [[1, 2, 3]] } } : Block).size {} + 24 := by decide
 
 /-! ## header -/
 
-/-- generator and history flag come back (header without bounding boxes; the box clause is NOT a
-    theorem: `write_header` converts the corners with double arithmetic and truncates, and the real
-    code loses 1e-7° on ≈ 2.4 % of the coordinates — monitor `pbf-header-bbox-rounding`) -/
-theorem header_roundtrip_partial (cv : Int → Int) (o : Opts) (h : Header) (hb : h.boxes = []) :
-    decodeMsg headerStep {} (encHeader cv o h) = some (projectHeader cv o h) := by
+/-- generator, history flag and the joined bounding box come back exactly (since fix 4309424 the corners
+    are written in exact integer arithmetic; before, ≈ 2.4 % of all coordinates lost 1e-7° — regression probe
+    `pbf-header-bbox-rounding`).  `encHeader = none` is the invalid_location error of an invalid joined box. -/
+theorem header_roundtrip (o : Opts) (h : Header) (fs : List Field) (he : encHeader o h = some fs) :
+    decodeMsg headerStep {} fs = some (projectHeader o h) := by
   obtain ⟨d, mv, mt, mc, mu, mus, hist, low⟩ := o
   have f1 : featureOk "OsmSchema-V0.6".toByteArray.toList = some false := by decide +kernel
   have f2 : featureOk "DenseNodes".toByteArray.toList = some false := by decide +kernel
   have f3 : featureOk "HistoricalInformation".toByteArray.toList = some true := by decide +kernel
-  cases d <;> cases hist <;> cases low <;>
-    simp [encHeader, projectHeader, hb, decodeMsg, headerStep, fBytes, f1, f2, f3]
+  unfold encHeader at he
+  by_cases hb : h.boxes.isEmpty = true
+  · simp only [hb, ↓reduceIte, Option.some.injEq] at he
+    subst he
+    cases d <;> cases hist <;> cases low <;>
+      simp [projectHeader, hb, decodeMsg, headerStep, fBytes, f1, f2, f3]
+  · simp only [hb, Bool.false_eq_true, ↓reduceIte] at he
+    split at he
+    · simp at he
+    · rename_i hv
+      simp only [Bool.or_eq_true, Bool.not_eq_true', not_or, Bool.not_eq_false] at hv
+      simp only [Option.some.injEq] at he
+      subst he
+      have hok := joinedBoxes_ok h.boxes
+      have hbox : decodeBBox (encodeFields [fVarint 1 (zigzag64 ((joinedBoxes h.boxes).1.x * 100)),
+          fVarint 2 (zigzag64 ((joinedBoxes h.boxes).2.x * 100)), fVarint 3 (zigzag64 ((joinedBoxes h.boxes).2.y * 100)),
+          fVarint 4 (zigzag64 ((joinedBoxes h.boxes).1.y * 100))]) = some (joinedBoxes h.boxes) := by
+        rcases hok with hu | ⟨_, _, hx, hy⟩
+        · rw [hu] at hv; exact absurd hv.1 (by decide)
+        · exact decodeBBox_enc _ _ hv.1 hv.2 hx hy
+      cases d <;> cases hist <;> cases low <;>
+        simp [projectHeader, hb, decodeMsg, headerStep, fBytes, f1, f2, f3, hbox]
+
+/-- non-vacuity: two boxes are joined and come back as one -/
+example : (encHeader {} { generator := [0x67], boxes := [(⟨-1301, -5⟩, ⟨7, 9⟩), (⟨0, -50⟩, ⟨1, 1⟩)] }).isSome = true := by
+  decide
 
 /-
-NOT proved in Lean (covered only by the correspondence of tools/props/c01_pbf.py: byte-exact writer model,
-model decoder = real Reader on every produced file, real write → real read = project computed in Python):
-  pbf_fields_roundtrip for node / way / relation / dense  (decodeNode p r (encNode o t m l).1 = project …):
-      needs `buildTags`/`buildMembers`/`denseLoop` inductions over the index lists returned by `addAll`
-      (stringtable_resolve_all + packed_roundtrip + delta_roundtrip + pbf_info_roundtrip are the ingredients);
-  pbf_block_roundtrip, pbf_file_roundtrip: need the per-kind lemmas plus the `WState.write` invariant
-      "finished blobs ++ current block decode to the projected prefix" and the framing lemma
-      (C02Pbf.pbf_framing_any_header_size gives the framing step).
+NOT proved in Lean (covered by the correspondence of tools/props/c01_pbf.py: byte-exact writer model incl. the
+block accounting stream `est`, model decoder = real Reader on every produced file, real write → real read =
+project computed in Python):
+  pbf_fields_roundtrip for DENSE nodes: needs the `denseLoop` induction (cursor lists in lock step, delta state
+      = running value, `denseTags` over the flattened 0-terminated groups); ingredients available:
+      delta_roundtrip*, packed_roundtrip, stringtable_resolve_all, the Info projections;
+  bytes level of one way / relation (`withFields (encodeFields fs)`; done for nodes: pbf_bytes_roundtrip_node):
+      needs `Field.WF` of every field of encWay/encRelation exactly as in Lemmas/PbfBytes.lean
+      (tags < 16, varint values < 2^64, payload < 2^32 from the 32 MiB guard), then `Wire.readFields_encodeFields`;
+  pbf_block_roundtrip, pbf_file_roundtrip: need the above plus the `WState.write` invariant "finished blobs ++
+      current block decode to the projected prefix" (the limit invariant `LimitInv` of Lemmas/PbfWriter.lean
+      is the skeleton) and the framing step (C02Pbf.pbf_framing_any_header_size).
 -/
 
 end Osmium.Pbf
